@@ -7,11 +7,14 @@ equals its original, equality is symmetric and never fails — arrays included, 
 
 Model: `Verif/Model/Variant.lean`.  The model is a value model: a variant IS its deep value, so
 "own copy" and "mutating a clone never changes the original" hold by construction (there is no
-sharing to express); what is proved here is the algebraic content.  Lean's floats are opaque to
-the kernel, so the equality theorems are stated for float-free values (`noFloat`).
+sharing to express); what is proved here is the algebraic content.  Float equality is the
+bit-level IEEE `==` (`fEq32` / `fEq`), so symmetry holds for all values (`veq_symm_all`) and
+reflexivity for all NaN-free values (`veq_refl_noNaN`); the older float-free statements
+(`noFloat`) are kept.
 -/
 import Verif.Model.Variant
 import Verif.Lemmas.ValueLemmas
+import Verif.Lemmas.FloatCmpLemmas
 import Verif.Props.C20Heap
 namespace Verif
 
@@ -254,6 +257,74 @@ end
 
 theorem veq_symm (a b : V) (ha : noFloat a = true) (_hb : noFloat b = true) : veq a b = veq b a :=
   veq_symm_left a ha b
+
+mutual
+/-- reflexivity for every value without a NaN inside (floats included) -/
+theorem veq_refl_noNaN : (v : V) → noNaN v = true → veq v v = true
+  | .null, _ => by simp [veq]
+  | .int _, _ => by simp [veq]
+  | .long _, _ => by simp [veq]
+  | .float x, h => by
+    rw [veq, fEq32_self]; simpa [noNaN] using h
+  | .double x, h => by
+    rw [veq, fEq_self]; simpa [noNaN] using h
+  | .str _, _ => by simp [veq]
+  | .bool _, _ => by simp [veq]
+  | .dateTime _ _, _ => by simp [veq]
+  | .timeSpan _, _ => by simp [veq]
+  | .object _, _ => by simp [veq]
+  | .array es, h => by
+    rw [veq]
+    exact veqList_refl_noNaN es (by simpa [noNaN] using h)
+  | .host _ _, h => by simp [noNaN] at h
+theorem veqList_refl_noNaN : (es : List V) → noNaNList es = true → veqList es es = true
+  | [], _ => by simp [veqList]
+  | e :: es, h => by
+    simp only [noNaNList, Bool.and_eq_true] at h
+    simp only [veqList, Bool.and_eq_true]
+    exact ⟨veq_refl_noNaN e h.1, veqList_refl_noNaN es h.2⟩
+end
+
+/-- a clone equals its original, for every NaN-free value -/
+theorem C20_clone_eq_noNaN (v : V) (h : noNaN v = true) : veq v v = true := veq_refl_noNaN v h
+
+/-- a NaN equals nothing, itself included -/
+theorem C20_veq_nan (x : Float32) (y : Float) (b : V) :
+    (fIsNaN32 x = true → veq (.float x) b = false ∧ veq b (.float x) = false) ∧
+    (fIsNaN y = true → veq (.double y) b = false ∧ veq b (.double y) = false) := by
+  constructor <;> intro h <;> cases b <;> simp [veq]
+  case left.float z => exact ⟨(fNaN32_unordered x z h).2.2.1, (fNaN32_unordered x z h).2.2.2.1⟩
+  case right.double z => exact ⟨(fNaN_unordered y z h).2.2.1, (fNaN_unordered y z h).2.2.2.1⟩
+
+mutual
+/-- symmetry for ALL values (floats and NaN included) -/
+theorem veq_symm_all : (a b : V) → veq a b = veq b a
+  | .null, b => by cases b <;> simp [veq]
+  | .int _, b => by cases b <;> simp [veq, BEq.comm]
+  | .long _, b => by cases b <;> simp [veq, BEq.comm]
+  | .float x, b => by cases b <;> simp [veq]; exact fEq32_comm ..
+  | .double x, b => by cases b <;> simp [veq]; exact fEq_comm ..
+  | .str _, b => by cases b <;> simp [veq, BEq.comm]
+  | .bool _, b => by cases b <;> simp [veq, BEq.comm]
+  | .dateTime _ _, b => by cases b <;> simp [veq, BEq.comm]
+  | .timeSpan _, b => by cases b <;> simp [veq, BEq.comm]
+  | .object _, b => by cases b <;> simp [veq, BEq.comm]
+  | .array as, b => by
+    cases b with
+    | array bs =>
+      simp only [veq]
+      exact veqList_symm_all as bs
+    | _ => simp [veq]
+  | .host _ _, b => by cases b <;> simp [veq]
+theorem veqList_symm_all : (as bs : List V) → veqList as bs = veqList bs as
+  | [], bs => by cases bs <;> simp [veqList]
+  | a :: as, bs => by
+    cases bs with
+    | nil => simp [veqList]
+    | cons b bs =>
+      simp only [veqList]
+      rw [veq_symm_all a b, veqList_symm_all as bs]
+end
 
 /-- `Equals` never fails: it is a total Boolean function (true or false, no third outcome) -/
 theorem C20_equals_total (a b : V) : veq a b = true ∨ veq a b = false := by
